@@ -3,7 +3,7 @@ CONSTANTS
   Ids = {1, 2}
   Cfgs = {"c1", "c2", "c3", "c5", "c6"}
   OwnScaleCfgs = {"c3"}
-  ReadsSharedDirection = FALSE
+  ReadsSharedDirection = TRUE
   ShareDefaultScale = FALSE
   MaxLen = 4
 INVARIANT Isolation
